@@ -165,7 +165,7 @@ def unit_solver(name, niter=1, tol=1e-6, timeout_ms=60000, fork_minmax=False,
 
     table = dict(MATH_TABLE)
     table["printf"] = lambda *a: None
-    ex = dict(stats=stats, fork_minmax=fork_minmax,
+    ex = dict(stats=stats, fork_minmax=fork_minmax, formal_cache=cov,
               feas_timeout_ms=1500 if name in ITERATIVE else 5000,
               deadline_s=deadline_s)
     with patched_globals(R, table):
@@ -192,10 +192,16 @@ def unit_solver(name, niter=1, tol=1e-6, timeout_ms=60000, fork_minmax=False,
                           "vs %s for the mirrored problem" % (k, r1, r2),
                           z3.BoolVal(False))
                 elif r1 == 0:
-                    claim(path.ctx, "symmetry",
-                          "path %d: p* equal, u* negated" % k,
-                          z3.And(to_real(a[0]) == to_real(b[0]),
-                                 to_real(a[1]) == -to_real(b[1])))
+                    what = "path %d: p* equal, u* negated" % k
+                    out["obligations"] += 1
+                    r, model = path.ctx.prove_eqs(
+                        [(a[0], b[0]), (a[1], -b[1])], timeout_ms=timeout_ms)
+                    if r == "unsat":
+                        out["discharged"] += 1
+                    elif r == "sat":
+                        cex("symmetry", what, model)
+                    else:
+                        out["undecided"].append(what)
         if "equal_states" in kinds:
             def run2(c):
                 _assume_admissible(c, v)
